@@ -195,6 +195,7 @@ FAULTS = [
     ('=NOSUCHFN(A1)', ('#NAME?',)),                  # unknown function
     ('=_xlfn.FUTUREFN(A1,2)', ('#NAME?',)),          # unknown function with the _xlfn. prefix
     ('=UNDEFINED_NAME+1', ('#REF!', '#NAME?')),      # undefined name
+    ("='[bad.xlsx]S'!A1", ('#REF!',)),               # workbook file present but unreadable (not a zip archive)
 ]
 
 
@@ -221,6 +222,8 @@ def _run_book(mask):
         ext.active.title = 'DATA'
         ext.active['A1'] = 42
         ext.save(os.path.join(d, 'ext.xlsx'))
+        with open(os.path.join(d, 'bad.xlsx'), 'wb') as f:
+            f.write(b'this is not a workbook')
         wb = openpyxl.Workbook()
         ws = wb.active
         ws.title = 'DATA'
@@ -284,8 +287,8 @@ def _names(mask):
 
 BOUNDED = [
     Stage('B2:every-subset-of-faults-injected-into-a-workbook', 'C14', _fault_cases, _check_faults,
-          'all 64 subsets of 6 faults (absent sheet, absent sheet of a readable linked workbook, absent file, unknown function, _xlfn. '
-          'function, undefined name) injected into a workbook with a linked workbook: loads and calculates, healthy cells keep their values, '
+          'all 128 subsets of 7 faults (absent sheet, absent sheet of a readable linked workbook, absent file, unreadable file, unknown '
+          'function, _xlfn. function, undefined name) injected into a workbook with a linked workbook: loads and calculates, healthy cells keep their values, '
           'faulty cells hold an error that IFERROR / ISERROR intercept and arithmetic propagates', parallel=True, weight=lambda c: 1),
     Stage('B1:single-formulas-with-unresolved-items', 'C14', _formula_cases, _check_formula,
           '15 formulas with unknown functions (incl. _xlfn.), undefined names and #REF! literals, bare and under IFERROR / ISERROR / IF',
@@ -299,10 +302,10 @@ PROPERTIES = {
             'Partial. Proved: an unknown name maps to a callable that always raises NotImplementedError; the formula dispatcher lets '
             'exactly NotImplementedError / RangeValueError / InvalidRangeError pass; the cell wrapper turns a dispatcher error caused by '
             'NotImplementedError into #NAME? and propagates everything else unchanged. Tables: the default of the function table, the '
-            'two recovery handlers of ExcelModel.complete (read from the AST). Bounded: single formulas with unresolved items; every subset of six '
-            'faults (absent sheet, absent sheet of a linked workbook, absent file, unknown function, _xlfn. function, undefined name) injected '
+            'two recovery handlers of ExcelModel.complete (read from the AST). Bounded: single formulas with unresolved items; every subset of seven '
+            'faults (absent sheet, absent sheet of a linked workbook, absent file, unreadable file, unknown function, _xlfn. function, undefined name) injected '
             'into one workbook: it loads and calculates, healthy cells keep their fault-free values, faulty cells hold interceptable errors.'),
         assumptions=['schedula wraps an exception of a node function into DispatcherError(ex=...) when raises(ex) is true (assumed)'],
-        not_proved=['locality across the workbook (every unaffected cell keeps its value): whole-model - bounded stage B2 only (one workbook shape, 64 fault subsets)'],
+        not_proved=['locality across the workbook (every unaffected cell keeps its value): whole-model - bounded stage B2 only (one workbook shape, 128 fault subsets)'],
     ),
 }
